@@ -656,10 +656,24 @@ def oracle(sc, res):
                     elif len(L['buf']) == 2 + ln:
                         L['sdus'] += L['buf'][2:]
                         L['buf'] = b''
+        # a set `drained` flag means that everything written on that channel is on the wire
+        if not (sc['mode'] == 'foreign'):
+            sides = (('A', 0, 'AB'), ('B', 1, 'BA'))
+        else:
+            sides = (('B', 1, 'BA'),)
+        for side, j, d in sides:
+            for i in range(n):
+                if st['drained'][i][j]:
+                    L = led[(i, d)]
+                    if L['buf'] or len(L['sdus']) != written.get((side, i), 0):
+                        fail('early-drain', f"step {k}: channel {i}: drained is set on side {side} with "
+                                            f"{written.get((side, i), 0) - len(L['sdus'])} written bytes not yet on the wire")
         # sink bytes are a prefix of the bytes written so far on the other side
         for side, idx, data in st['sinks']:
             pos = sunk.get((side, idx), 0)
             src = ('B' if side == 'A' else 'A', idx)
+            if sc.get('sink_after'):
+                continue        # SDUs that arrived before the sink was set are lost: no stream clause
             if pos + len(data) > written.get(src, 0) or data != res['written'].get(src, b'')[pos:pos + len(data)]:
                 fail('stream', f'step {k}: channel {idx}: side {side} received {len(data)} bytes at offset {pos} '
                                f'that are not what {src[0]} wrote there')
@@ -957,7 +971,7 @@ def gen_scenario(rng, big=False, quick=False):
         ops.insert(0, ['W', side, 0, rng.choice(write_sizes(rng, peer, big))])
     sc['ops'] = ops
     sc['tail'] = [rng.below(2) for _ in range(rng.choice([1, 2, 3, 7]))]
-    if sc['mode'] == 'foreign' and not big and rng.chance(1, 8):
+    if sc['mode'] == 'foreign' and not big and rng.chance(1, 5):
         sc['sink_after'] = rng.range(1, len(ops))      # frames reach Bumble before the application set a sink
     return sc
 
@@ -970,6 +984,17 @@ CORPUS = [
     # D07 between two Bumbles: opens cross, so the two sides' CIDs differ
     {'mode': 'pair', 'kind': 'enh', 'count': 1, 'crossed': True, 'spec_a': [64, 23, 2], 'spec_b': [64, 23, 2],
      'ops': [['W', 'A', 0, 150], ['W', 'B', 0, 150], ['W', 'A', 1, 150], ['W', 'B', 1, 150]], 'tail': [0, 1]},
+]
+
+
+# boundary values of the legal ranges, always run: MTU 65535 / MPS 65533 / credits 1 and 65535,
+# writes of MTU and MTU + 1 bytes in both directions
+CORPUS += [
+    {'mode': 'pair', 'kind': 'le', 'count': 1, 'crossed': False, 'spec_a': [65535, 65533, 1], 'spec_b': [65535, 65533, 65535],
+     'ops': [['W', 'A', 0, 65535], ['W', 'B', 0, 65536], ['D', 'AB'], ['D', 'BA']], 'tail': [0, 1]},
+    {'mode': 'foreign', 'kind': 'enh', 'count': 1, 'spec_a': [65535, 2048, 2], 'spec_b': [65535, 23, 1],
+     'foreign_role': 'acceptor', 'cid_base': 0x7E, 'policy': 'zero', 'frame_sizes': [1, None],
+     'ops': [['W', 'B', 0, 65535], ['W', 'A', 0, 2049]], 'tail': [1, 0]},
 ]
 
 
@@ -1332,7 +1357,7 @@ def evaluate(ctx, scs, label):
             ex, meta = [multi_model_expr(sc, res)], 'multi'
         else:
             ex, meta = (foreign_model_exprs if foreign else pair_model_exprs)(sc, res)
-        tex = tables_exprs(res)
+        tex = tables_exprs(res) if label != 'exhaustive' else []
         index.append((sc, res, len(exprs), len(ex), meta, foreign, tex))
         exprs.extend(ex)
         exprs.extend(e for _, e in tex)
@@ -1411,6 +1436,19 @@ def spread_eval(ctx, exprs, nshards=16):
     return out
 
 
+def enum_small(depth):
+    """every schedule of the given length over a 6-letter alphabet at the smallest legal
+    parameters (MTU = MPS = 23), credits 1 and 2 (thorough tier)"""
+    import itertools
+    alphabet = [['W', 'A', 0, 21], ['W', 'A', 0, 22], ['W', 'A', 0, 24], ['W', 'B', 0, 1], ['D', 'AB'], ['D', 'BA']]
+    for cr in (1, 2):
+        for seq in itertools.product(range(len(alphabet)), repeat=depth):
+            if not any(alphabet[i][0] == 'W' for i in seq):
+                continue
+            yield {'mode': 'pair', 'kind': 'le', 'count': 1, 'crossed': False, 'spec_a': [23, 23, cr],
+                   'spec_b': [23, 23, cr], 'ops': [list(alphabet[i]) for i in seq], 'tail': [0, 1]}
+
+
 def run(ctx):
     ctx.rule = ('scenario = mode (two Bumble managers, optionally with crossing opens so that the two sides '
                 'allocate different CIDs / Bumble against an independent peer with offset CIDs, own frame sizes '
@@ -1435,6 +1473,12 @@ def run(ctx):
     for _ in range(ctx.n(3, 40)):
         scs.append(gen_scenario(rng, big=True, quick=ctx.quick()))
     evaluate(ctx, scs, 'generated')
+    if not ctx.quick():
+        depth = 5
+        small = list(enum_small(depth))
+        ctx.extra['exhaustive_small_scope'] = {'depth': depth, 'alphabet': 6, 'credits': [1, 2], 'schedules': len(small)}
+        for k in range(0, len(small), 8000):
+            evaluate(ctx, small[k:k + 8000], 'exhaustive')
 
 
 def search(ctx):
@@ -1455,6 +1499,12 @@ def search(ctx):
                             'spec_a': [64, 23, cr], 'spec_b': [23, 64, cr],
                             'ops': [['W', 'A', 0, 300], ['W', 'B', 0, 300], ['W', 'A', 1, 64], ['W', 'B', 1, 65]],
                             'tail': [0, 1]})
+    scs += [c for c in CORPUS if c['spec_a'][0] == 65535]
+    for fs in ([1, None], [1, 1, None], [2, None]):
+        scs.append({'mode': 'foreign', 'kind': 'le', 'count': 1, 'spec_a': [64, 23, 3], 'spec_b': [64, 23, 3],
+                    'foreign_role': 'initiator', 'cid_base': 0x50, 'policy': 'half', 'frame_sizes': fs,
+                    'ops': [['W', 'A', 0, 21], ['W', 'A', 0, 64], ['W', 'A', 0, 130], ['W', 'B', 0, 21], ['W', 'B', 0, 44]],
+                    'tail': [0, 1]})
     for sc in scs:
         res = run_impl(sc)
         if 'setup_error' in res:
